@@ -39,7 +39,7 @@ def run(tier):
     chk.rules.append('varint32/64 values at 2^(7k) boundaries, 2^32-1, 2^64-1 and random; malformed varints; version edits with every field present/absent, '
                      'levels 0..6, boundary numbers, many files, shuffled field order; tag streams with boundary values and truncations; '
                      'non-trivial = response not fail/empty, distinct = distinct (suite, response)')
-    run_cases(chk, cases, unit)
+    run_cases(chk, cases, unit, reference_suites={'edit-roundtrip', 'varint-enc', 'varint-dec'})
     import wl_checks
     wl_checks.c17_part(chk, tier, rng)
     # CURRENT must keep naming a complete MANIFEST also when a call fails inside the roll-over
